@@ -144,7 +144,8 @@ def run_cases(wh, cases, tag):
 
 def drift_flags(driver, items):
     """items: list of (hdr, ops up to the crash).  Would a restart at that point change block
-    ids (model predicate id_drift, coq/model/Engine.v)?  Evaluated by the extracted model."""
+    ids (model predicate id_drift, coq/model/Engine.v) or meet a stale provisional tail position
+    (stale_tail_b, coq/model/EngineKnown.v)?  Evaluated by the extracted model; returns the class list."""
     lines, idx = [], []
     for hdr, ops in items:
         lines.append("CASE d %s geom=small" % hdr)
@@ -154,7 +155,7 @@ def drift_flags(driver, items):
     if not lines:
         return []
     out, rc, err = C.run_lines([driver, "engine"], lines, timeout=1800)
-    return [(j < len(out) and out[j].endswith("!drift")) for j in idx]
+    return [[c for c, f in (("id-drift", "!drift"), ("stale-tail", "!stale")) if j < len(out) and f in out[j]] for j in idx]
 
 
 def entries_of(line):
@@ -317,8 +318,7 @@ def run(ctx):
         if v != "ok":
             rejected += 1
             hdr, ops, info, _ = workloads[wi]
-            if flags.get((wi, k)):
-                cls = cls + ["id-drift"]
+            cls = cls + list(flags.get((wi, k)) or [])
             failures.append(dict(kind="acceptor", acceptor=cmdname, k=k, topic=t, classes=cls, judged=line, verdict=v,
                                  workload=dict(hdr=hdr, ops=ops, info=info),
                                  what="crash at I/O event %d: recovered state rejected by %s" % (k, cmdname)))
@@ -351,6 +351,8 @@ def run_faults(ctx, wh, workloads, rng, q):
     dres = run_cases(wh, dry, "c04d")
     cases, meta = [], []
     kinds_hist = {}
+    rotated = {}
+    Bsz = C.gen_consts()["small"]["DEFAULT_BLOCK_SIZE"]
     for i, (w, r) in enumerate(zip(workloads, dres)):
         try:
             n0 = int(r[1][2:])
@@ -359,12 +361,24 @@ def run_faults(ctx, wh, workloads, rng, q):
             broken.append(dict(kind="harness", what="dry run failed", out=r[:6]))
             continue
         cand = []
-        for ev in tr:
-            p = ev.split()
+        evs = [e.split() for e in tr]
+        for j, p in enumerate(evs):
             if len(p) >= 2 and p[0] != "0" and p[1] in FAULT_KINDS:
                 if p[1] == "write" and "backend=mmap" in w[0]:
                     continue        # a store into the mapping cannot report failure
                 cand.append((int(p[0]) - n0, p[1]))
+                if p[1] == "uring_cqe":
+                    # mechanism of the batch this completion belongs to: did its plan cross a block boundary?
+                    # (uring_cqe / uring_submit records carry no path: the plan is read off the uring_sqe records
+                    #  of the same submission, which directly precede it)
+                    lo = j
+                    while lo > 0 and len(evs[lo - 1]) >= 2 and evs[lo - 1][1] in ("uring_sqe", "uring_cqe", "uring_submit"):
+                        lo -= 1
+                    sq = [e for e in evs[lo:j] if len(e) >= 5 and e[1] == "uring_sqe"]
+                    blocks = set((e[2], int(e[3]) // Bsz) for e in sq)
+                    # rotated: the plan spans several blocks, or its first write starts a fresh block (the
+                    # old one was sealed before anything was written)
+                    rotated[(i, int(p[0]) - n0)] = len(blocks) > 1 or (bool(sq) and int(sq[0][3]) % Bsz == 0)
         if w[3] is not None:
             cand = [c for c in cand if c[0] in w[3]]
         elif q and len(cand) > 10:
@@ -391,7 +405,12 @@ def run_faults(ctx, wh, workloads, rng, q):
         else:
             restart_out, drain_out = "ok", rest
         wl = dict(hdr=hdr, ops=ops, info=info)
-        cls = ["fault:" + kind, "fault:" + kind + (":" + re.search(r"backend=(\w+)", hdr).group(1)) + (":" + re.search(r"sched=(\w+)", hdr).group(1))]
+        cls = ["fault:" + kind + (":" + re.search(r"backend=(\w+)", hdr).group(1)) + (":" + re.search(r"sched=(\w+)", hdr).group(1))]
+        if kind == "uring_cqe":
+            # the open finding is about batches that ROTATED blocks; a failure inside a one-block batch is a different mechanism
+            cls.append("fault:uring_cqe:rotated" if rotated.get((wi, k)) else "fault:uring_cqe:one-block")
+        else:
+            cls.append("fault:" + kind)
         if restart_out != "ok" or any(o in ("panic", "died", "<missing>", "noinstance") for o in op_out + drain_out):
             failures.append(dict(kind="acceptor", acceptor="fault-crashed", k=k, fault=kind, variant=variant, workload=wl, classes=cls,
                                  ops_out=op_out, restart=restart_out, drain=drain_out[:8],
